@@ -580,6 +580,21 @@ func (w *world) mutants(m *model, prog []byte) []mutant {
 				a[first].Amt, a[last].Amt = a[last].Amt, a[first].Amt
 				ms = append(ms, mutant{"amounts-swapped", a})
 			}
+			// one entry of the table paid twice (each output correct for ITS program), another one not at all
+			a = cloneOuts(want)
+			a[last] = cbOut{want[first].Prog, want[first].Amt}
+			ms = append(ms, mutant{"first-entry-paid-twice-last-missing", a})
+			a = cloneOuts(want)
+			a[first] = cbOut{want[last].Prog, want[last].Amt}
+			ms = append(ms, mutant{"last-entry-paid-twice-first-missing", a})
+		}
+		// every entry paid and one of them once more
+		for k, i := range []int{first, last} {
+			if k == 1 && last == first {
+				break
+			}
+			a = append(cloneOuts(want), cbOut{want[i].Prog, want[i].Amt})
+			ms = append(ms, mutant{[]string{"all-entries-plus-first-repeated", "all-entries-plus-last-repeated"}[k], a})
 		}
 		// the same total to a single (wrong) recipient
 		var total uint64
@@ -688,6 +703,7 @@ func runHist(h []int, extra json.RawMessage) (out xplore.Out) {
 	m := w.m0.clone()
 	parent := w.tip
 	local := map[string]amt{}
+	diffTotals := false
 	supplyCheck := func(tag string, paid *big.Int, fees *big.Int) {
 		sum, unknown, _ := utxoSum(db, w.amounts, local)
 		out.Checks++
@@ -722,6 +738,20 @@ func runHist(h []int, extra json.RawMessage) (out xplore.Out) {
 		want := m.coinbase(prog)
 		last := i == len(h)-1
 		if last {
+			diffTotals = false
+			var amts []uint64
+			for _, o := range want {
+				if o.Amt > 0 {
+					amts = append(amts, o.Amt)
+				}
+			}
+			for _, a := range amts {
+				if a != amts[0] {
+					diffTotals = true
+				}
+			}
+		}
+		if last {
 			seenMu := map[string]bool{}
 			for _, mu := range w.mutants(m, prog) {
 				if seenMu[fmtCb(mu.outs)] {
@@ -753,7 +783,22 @@ func runHist(h []int, extra json.RawMessage) (out xplore.Out) {
 				}
 			}
 		}
-		b := w.net.NewBlock(parent, labnet.BlockOpt{Txs: ttx, CoinbaseOutputs: toTxOuts(want)})
+		carried := want
+		splitForm := false
+		if last && len(h) == p.depth() {
+			// the last block of a complete chain carries its first paid entry split over two outputs of the
+			// same program: legal (the node adds up the outputs of one program), and it must stay legal
+			for j, o := range want {
+				if o.Amt > 1 {
+					carried = cloneOuts(want)
+					carried[j].Amt = o.Amt - 1
+					carried = append(carried, cbOut{o.Prog, 1})
+					splitForm = true
+					break
+				}
+			}
+		}
+		b := w.net.NewBlock(parent, labnet.BlockOpt{Txs: ttx, CoinbaseOutputs: toTxOuts(carried)})
 		w.addAmounts(local, b.Block.Transactions[0])
 		orphan, err := nd.Chain.ProcessBlock(plain(b.Block))
 		out.Checks++
@@ -765,8 +810,10 @@ func runHist(h []int, extra json.RawMessage) (out xplore.Out) {
 			}
 			if !last {
 				key = "infra-prefix-not-replayable"
+			} else if splitForm {
+				key = "entry-split-over-two-outputs-rejected"
 			}
-			viol(key, fmt.Sprintf("block %d with the oracle's coinbase %s rejected: orphan=%v err=%v", b.Height, fmtCb(want), orphan, err))
+			viol(key, fmt.Sprintf("block %d with the oracle's coinbase %s (carried as %s) rejected: orphan=%v err=%v", b.Height, fmtCb(want), fmtCb(carried), orphan, err))
 			out.Prune = true
 			out.Digest = "rejected/" + fmt.Sprint(h)
 			out.Outcome = "oracle-coinbase-rejected"
@@ -817,6 +864,12 @@ func runHist(h []int, extra json.RawMessage) (out xplore.Out) {
 	out.Digest = fmt.Sprintf("E%d h%d R{%s} V{%s} U%v", p.E, m.Height, tableStr(rewards), tableStr(votes), voteUtxos)
 	if len(h) > 0 {
 		out.Outcome = fmt.Sprintf("pos=%d recipients-paid=%d subsidy=base+%d fees=%v", (m.Height-1)%p.E+1, m.LastRecipients, m.LastSubsidy-oBlockReward/2, m.LastFees > 0)
+		if diffTotals {
+			out.Outcome += " different-totals"
+		}
+		if len(h) == p.depth() && m.LastRecipients > 0 {
+			out.Outcome += " split-form"
+		}
 	} else {
 		out.Outcome = "prelude"
 	}
